@@ -90,6 +90,10 @@ class Limit:
             # Calculate number of periods in the interval
             total_seconds = (self.interval_end - self.interval_start).total_seconds()
             num_periods = max(1, int(total_seconds / self.period) + 1)
+            # Days and ISO weeks are calendar periods: an interval that starts late in a
+            # week (or day) touches one more of them than its length suggests
+            last_slot = max(0, int(total_seconds / self.slot_duration))
+            num_periods = max(num_periods, self._idx_to_sb_idx(last_slot) + 1)
             self._scoreboard = [0] * num_periods
         else:
             # Reset only the specific period
